@@ -1,5 +1,6 @@
 import Rare.Proofs.C18Cal
 import Rare.Proofs.C18Layout
+import Rare.Proofs.C18Dur
 import Rare.Gen.C18
 /-!
 # C18 – Time helpers agree with the calendar and round-trip
@@ -156,6 +157,39 @@ theorem isoweek_thursday (d : Int) :
     have : thursdayOf (thursdayOf d - 3 + k) = thursdayOf d := by
       unfold thursdayOf weekday at *; omega
     simp only [isoYearWeek, this]
+
+/-! ## Durations -/
+
+/-- `{duration {durationformat n}} = n` for every whole number of seconds whose nanosecond count
+fits int64 (|n| ≤ 9223372036); beyond, `time.Duration(secs) * time.Second` wraps (modelled, and
+compared with the real code, but no round trip is claimed there). -/
+theorem duration_roundtrip (n : Int) (h1 : -9223372036 ≤ n) (h2 : n ≤ 9223372036) :
+    ∃ b, durationFormat (itoa n) = .val b ∧ duration b = .val (itoa n) := by
+  obtain ⟨b, hb, hp⟩ := parseDuration_durationString n h1 h2
+  have hin : inInt64 n = true := by
+    simp only [inInt64, minInt64, maxInt64, Bool.and_eq_true]
+    exact ⟨decide_eq_true (by omega), decide_eq_true (by omega)⟩
+  have hw : wrap64 (n * 1000000000) = n * 1000000000 := by unfold wrap64; omega
+  refine ⟨b, ?_, ?_⟩
+  · simp only [durationFormat, atoi_itoa n hin, hw, hb]
+  · have hd : Int.tdiv (n * 1000000000) 1000000000 = n := Int.mul_tdiv_cancel _ (by decide)
+    have hm : Int.tmod (n * 1000000000) 1000000000 = 0 := Int.mul_tmod_left _ _
+    simp only [duration, hp, hd, hm, ne_eq, not_true_eq_false, false_and, if_false]
+
+/-- What `durationformat` prints for a whole number of seconds in that range: an optional `-`, then
+hours (if any), minutes (if any hours or minutes) and seconds of the magnitude, which recompose to it. -/
+theorem durationformat_spec (n : Int) (h0 : n ≠ 0) (h1 : -9223372036 ≤ n) (h2 : n ≤ 9223372036) :
+    durationFormat (itoa n) = .val (if n < 0 then 45 :: hmsText n.natAbs else hmsText n.natAbs)
+    ∧ secondsOfHms (hmsOf n.natAbs).1 (hmsOf n.natAbs).2.1 (hmsOf n.natAbs).2.2 = n.natAbs
+    ∧ (hmsOf n.natAbs).1 = n.natAbs / 60 / 60 ∧ (hmsOf n.natAbs).2.1 = n.natAbs / 60 % 60 := by
+  have hin : inInt64 n = true := by
+    simp only [inInt64, minInt64, maxInt64, Bool.and_eq_true]
+    exact ⟨decide_eq_true (by omega), decide_eq_true (by omega)⟩
+  have hw : wrap64 (n * 1000000000) = n * 1000000000 := by unfold wrap64; omega
+  refine ⟨?_, ?_, ?_, rfl⟩
+  · simp only [durationFormat, atoi_itoa n hin, hw, durationString_seconds n h0]
+  · simp only [secondsOfHms, hmsOf]; omega
+  · simp only [hmsOf]; omega
 
 /-! ## Markers -/
 
